@@ -3,7 +3,7 @@ import json, os
 from gen import common
 from gen.common import hexs
 
-LEAN_MODULE = "XcmModel.Props.C19"
+LEAN_MODULE = ["XcmModel.Props.C19", "XcmModel.Props.Funcs"]
 THEOREMS = [
     "XcmModel.C19.abs_add", "XcmModel.C19.abs_del", "XcmModel.C19.inv_add", "XcmModel.C19.inv_del",
     "XcmModel.C19.getTyped_spec", "XcmModel.C19.exists_spec", "XcmModel.C19.size_spec",
@@ -13,6 +13,7 @@ THEOREMS = [
     "XcmModel.C19.C19_path_roundtrip", "XcmModel.C19.C19_path_canonical",
     "XcmModel.C19.C19_path_no_longer", "XcmModel.C19.C19_path_rejects_long",
     "XcmModel.C19.C19_path_comp_bound", "XcmModel.C19.C19_path_parse_wf",
+    "XcmModel.FuncsTie.is_special_tie", "XcmModel.FuncsTie.is_key_char_tie",
 ]
 
 
